@@ -110,7 +110,7 @@ def civil(sec):
 class Prop:
     id = "C17"
     lean_module = "MuduoVerif.Props.C17"
-    gen_engines = ["LogStream", "LogStreamSkel"]
+    gen_engines = ["LogStream", "LogStreamSkel", "ThreadSkel"]
     drivers = ["logstream"]
     technique = ("Lean 4 proofs about an executable model of LogStream/FixedBuffer/Logger/formatSI/formatIEC (exact "
                  "rational model of the double arithmetic) + T1 extraction of tables, guards, formats, line pieces, the "
@@ -162,6 +162,7 @@ class Prop:
         "vlib/gen/logstreamskel.py + vlib/logskel_common.py (same AST -> Generated/LogStreamSkel.lean: statement skeletons of 36 "
         "functions of LogStream.h / LogStream.cc / Logging.cc) and the hand-written reading Model/LogStreamSkelDecl.lean of "
         "Model/LogStream.lean (which model term stands for which statement)",
+        "vlib/gen/threadskel.py + vlib/logskel_common.py (same AST -> Generated/ThreadSkel.lean: statement skeletons of CurrentThread::tid / cacheTid / isMainThread, detail::gettid / afterFork / ThreadNameInitializer, ThreadData::runInThread (CurrentThread.h, Thread.cc)) and the hand-written reading Model/ThreadSkelDecl.lean (which atomic step of the model stands for which statements): that the code calls pthread in the modelled order is tied by decide; what the pthread / libc functions do stays trusted (POSIX)",
         "hand-written Model/LogStream.lean for everything else (digit loops, buffer, %d interpreter, time cache, exact "
         "double arithmetic), tied by the differential run (harness/logstream_drv.cc vs lean driver)",
         "glibc snprintf (%.12g, %.Nf correctly rounded), strerror_r, gettid; IEEE-754 binary64 round-to-nearest-even",
